@@ -118,6 +118,9 @@ class Run:
         return problems, tuple(ids)
 
 
+_WARM = []
+
+
 def _explore(acc, arg):
     scenario, bound, cap = arg[:3]
     lines = len(arg) > 3
@@ -125,6 +128,12 @@ def _explore(acc, arg):
     outcomes = set()
     found = {}
     _weight = _line_weight if lines else globals()['_weight']
+
+    if lines and not _WARM:
+        # per-instruction trace events of a code object start with its second traced call in the process (CPython 3.12):
+        # one throw-away run, so that the default schedule already has all scheduling points
+        _WARM.append(1)
+        Run(scenario, [], lines).go()
 
     def one(prefix):
         r = Run(scenario, prefix, lines).go()
